@@ -71,6 +71,13 @@ FEATURES = {
     "index_last": ("cmp", "eq", ("idx", A(X, "vals"), -1), A(Y, "a")),
     "call": ("cmp", "eq", ("call", X, "m", (1,)), L(1)),
     "call_attr": ("cmp", "eq", ("call", X, "m", (1,)), A(Y, "b")),
+    # an index whose key is an expression; the variable itself as a condition; two collections compared
+    "index_var_key": ("cmp", "eq", ("idxv", A(X, "vals"), A(Y, "b")), L(7)),
+    "index_own_key": ("cmp", "ge", ("idxv", A(X, "vals"), A(X, "b")), L(3)),
+    "var_as_condition": ("bool", X),
+    "list_eq_same_order": ("cmp", "eq", A(X, "tags"), L((1, 2))),
+    "list_eq_other_order": ("cmp", "eq", A(X, "tags"), L((2, 1))),
+    "list_ne_repeated": ("cmp", "ne", A(X, "tags"), L((1, 1, 2))),
     # two items indexed out of / two calls on ONE container or callable compared with each other
     "index_pair_eq": ("cmp", "eq", ("idx", A(X, "vals"), 0), ("idx", A(X, "vals"), 1)),
     "index_pair_ne": ("cmp", "ne", ("idx", A(X, "vals"), 0), ("idx", A(X, "vals"), -1)),
@@ -224,6 +231,8 @@ def cases(tier, seed):
                 out.append((q, ("sub3", 5, 6)))
                 out.append((q, ("sub3", 0, 7)))
                 out.append((q, ("sub3", 7, 0)))
+                if "exists" in repr(c) or "forall" in repr(c):
+                    out.append((q, ("D5zempty",)))  # the quantified variable has an EMPTY domain
     # part D: dependent variables: flatten and nested sub-queries (conjunctive positions only)
     F = ("var", "f")
     S = ("var", "s")
@@ -258,7 +267,10 @@ def cases(tier, seed):
               ("and", ("cmp", "eq", XA, A(Y, "a")), ("not", ("cmp", "eq", XA, L(0)))),
               ("and", ("in", XA, L((1, 2))), ("cmp", "eq", XA, A(Y, "b"))),
               ("and", ("bool", FL), ("exists", "z", ("cmp", "ne", A(Z, "flag"), FL))),
-              ("and", ("cmp", "eq", XA, L(1)), ("forall", "z", ("cmp", "le", A(Z, "a"), XA)))]
+              ("and", ("cmp", "eq", XA, L(1)), ("forall", "z", ("cmp", "le", A(Z, "a"), XA))),
+              # ONE expression over the quantified variable used in two quantifiers
+              ("and", ("exists", "z", ("cmp", "eq", A(Z, "b"), L(1))), ("forall", "z", ("cmp", "ge", A(Z, "b"), A(X, "b")))),
+              ("and", ("forall", "z", ("cmp", "le", A(Z, "b"), L(1))), ("exists", "z", ("cmp", "gt", A(Z, "b"), A(X, "b"))))]
     # one CONDITION object at several positions (the if/else idiom and friends)
     cA, cB, cP, cQ = ("cmp", "eq", XA, L(0)), ("cmp", "lt", A(X, "b"), A(Y, "b")), ("cmp", "eq", A(Y, "b"), L(1)), ("cmp", "eq", A(Y, "a"), L(1))
     for cc in (cA, cB, ("pred", "SameA", X, Y)):
@@ -274,13 +286,15 @@ def cases(tier, seed):
 
 
 def make_world(dspec):
-    if dspec[0] in ("D5", "D5shared", "D5rev", "D5falsy"):
+    if dspec[0] in ("D5", "D5shared", "D5rev", "D5falsy", "D5zempty"):
         items = W.make_items(W.UNIVERSE, falsy=dspec[0] == "D5falsy")
         if dspec[0] == "D5shared":
             shared = list(items)
             doms = {"x": shared, "y": shared, "z": shared, "w": shared}
         elif dspec[0] == "D5rev":
             doms = {"x": list(reversed(items)), "y": list(items), "z": list(items), "w": list(items)}
+        elif dspec[0] == "D5zempty":
+            doms = {"x": list(items), "y": items[1:] + items[:1], "z": [], "w": []}
         else:
             doms = {"x": list(items), "y": items[1:] + items[:1], "z": list(items), "w": items[2:] + items[:2]}
     else:
